@@ -36,8 +36,8 @@ SetRes(c, u, strict, old, arg) ==
   CASE c.kind \in RangeKinds ->
          IF InRange(c, u, arg.v) THEN [out |-> "ok", vals |-> {arg.v}]
          ELSE IF strict THEN [out |-> "ControllerValueError", vals |-> {old}]
-         ELSE [out |-> "any", vals |-> {arg.v, old}]      \* lenient: C09 constrains strict mode only; if the
-                                                          \* call succeeds the value is the new or the old one
+         ELSE [out |-> "not-cve", vals |-> {arg.v, old}]  \* lenient: the controller-value error is NOT raised (only logged);
+                                                          \* if the call succeeds the value is the new or the old one
     [] c.kind = "dep"  -> [out |-> "ok", vals |-> {arg.v}]  \* unit-dependent ranges only warn
     [] c.kind = "enum" ->
          IF arg.k = "name"
@@ -48,7 +48,7 @@ SetRes(c, u, strict, old, arg) ==
     [] c.kind = "bool" -> [out |-> "ok", vals |-> {IF arg.v = 0 THEN 0 ELSE 1}]
 
 OutcomeMatches(expected, got) ==
-  IF expected = "exception" THEN got # "ok" ELSE IF expected = "any" THEN TRUE ELSE got = expected
+  IF expected = "exception" THEN got # "ok" ELSE IF expected = "not-cve" THEN got # "ControllerValueError" ELSE got = expected
 
 (* ---- design-level theorems, checked by MC_RVCtl over every value of every class ---- *)
 Bijective(c, u) == \A v \in CMin(c, u)..CMax(c, u) :
